@@ -55,6 +55,8 @@ const ruleText = "key-bearing field := protobuf field of Go type []byte or [][]b
 	"^(key|keys|*_key|*_keys|primary|primary_lock|secondaries|start|end)$ , reached from the command's request/response " +
 	"message through singular or repeated message fields (each message type at most twice on a path; kvrpcpb.Context is not entered; " +
 	"kvrpcpb.KeyError is not entered on the request side); range-end := key-bearing request field named end or end_key (left empty it must become the keyspace end); " +
+	"range-start := key-bearing request field named start or start_key (left empty it must become the keyspace prefix, never stay empty); " +
+	"any other request key field left empty may become the prefix or stay empty (= not set); " +
 	"region-format (memcomparable over the prefixed key) := metapb.Region.{start_key,end_key}, errorpb.KeyNotInRegion.{start_key,end_key}, " +
 	"errorpb.BucketVersionNotMatch.keys; every other []byte / [][]byte field is listed under non_key_bytes_fields"
 
@@ -650,21 +652,32 @@ func runCatalogue(cmdsFile, outFile string) {
 			effect, intact := "", true
 			last := lf.ppath[len(lf.ppath)-1]
 			isEnd := !lf.multi && (last == "end" || last == "end_key")
+			role := "key"
+			if isEnd {
+				role = "end"
+			} else if !lf.multi && (last == "start" || last == "start_key") {
+				role = "start"
+			}
 			emptyEnd := "na"
+			empty := ""
 			for _, cd := range codecs {
 				e, in := probeEncode(cd, typ, ci, lf)
 				if effect == "" || e != "prefixed" {
 					effect = e
 				}
 				intact = intact && in
-				if isEnd {
-					ee := probeEmptyEnd(cd, typ, ci, lf)
-					if emptyEnd == "na" || ee != "kend" {
-						emptyEnd = ee
-					}
+				ee := probeEmptyEnd(cd, typ, ci, lf)
+				if isEnd && (emptyEnd == "na" || ee != "kend") {
+					emptyEnd = ee
+				}
+				// what an EMPTY key in this field becomes; the two probe codecs must agree
+				if empty == "" {
+					empty = ee
+				} else if empty != ee {
+					empty = "other"
 				}
 			}
-			pr("field %s req %s multi=%s fmt=plain effect=%s intact=%s emptyend=%s", c.name, lf, b2s(lf.multi), effect, b2s(intact), emptyEnd)
+			pr("field %s req %s multi=%s fmt=plain effect=%s intact=%s emptyend=%s role=%s empty=%s", c.name, lf, b2s(lf.multi), effect, b2s(intact), emptyEnd, role, empty)
 		}
 		// ---- key-bearing response fields: observed effect of DecodeResponse
 		if ci.respT != nil {
@@ -682,7 +695,14 @@ func runCatalogue(cmdsFile, outFile string) {
 				if lf.region {
 					f = "region"
 				}
-				pr("field %s resp %s multi=%s fmt=%s effect=%s intact=1 emptyend=na", c.name, lf, b2s(lf.multi), f, effect)
+				last := lf.ppath[len(lf.ppath)-1]
+				role := "key"
+				if !lf.multi && (last == "end" || last == "end_key") {
+					role = "end"
+				} else if !lf.multi && (last == "start" || last == "start_key") {
+					role = "start"
+				}
+				pr("field %s resp %s multi=%s fmt=%s effect=%s intact=1 emptyend=na role=%s empty=na", c.name, lf, b2s(lf.multi), f, effect, role)
 			}
 		}
 	}
@@ -750,6 +770,8 @@ func probeEmptyEnd(cd apicodec.Codec, typ tikvrpc.CmdType, ci cmdInfo, lf leaf) 
 			res = "dropped"
 		} else if allEq(got, func(int) []byte { return kend }) {
 			res = "kend"
+		} else if allEq(got, func(int) []byte { return cd.GetKeyspace() }) {
+			res = "kstart"
 		} else if allEq(got, func(int) []byte { return nil }) {
 			res = "empty"
 		} else {
